@@ -101,8 +101,10 @@ class Engine(ExprMixin, StmtMixin, CallMixin, EngineBase):
                 nxt = []
                 for s in states:
                     for s2, oc in self.exec_block(body, s):
+                        if oc[0] == "raise" and (self.discovery or not self.feasible(s2)):
+                            continue
                         if oc[0] != "normal":
-                            raise Unsupported(f"ghost statement ended with {oc[0]}")
+                            raise Unsupported(f"ghost statement ended with {oc[0]} {oc[1] if len(oc) > 1 else ''}")
                         nxt.append(s2)
                 states = nxt
             return states
@@ -149,11 +151,10 @@ class Engine(ExprMixin, StmtMixin, CallMixin, EngineBase):
         st.old.pc = list(st.pc)
         entry = st.fork()
         self.entry_state = entry
+        outcomes = []
         for s in self.exec_ghost(con.ghost_entry, st):
-            st = s
-        st.old = entry.old
-        is_gen = any(isinstance(n, (ast.Yield, ast.YieldFrom)) for n in ast.walk(fdef))
-        outcomes = self.exec_block(fdef.body, st)
+            s.old = entry.old
+            outcomes.extend(self.exec_block(fdef.body, s))
         n_normal = 0
         for s, oc in outcomes:
             if oc[0] in ("normal", "return"):
